@@ -3,6 +3,7 @@ package benchfmt
 // C02: the reader follows the format's line and scoping rules on every input.
 
 import (
+	"math"
 	"bytes"
 	"strconv"
 	"unicode"
@@ -241,6 +242,8 @@ func H02Classify() {
 
 var h02BenchTemplates = []string{
 	"BenchmarkX?1?5?u", "BenchmarkX 1 ?? u", "Benchmark???", "BenchmarkX ?? 5 u", "BenchmarkX 1 5 u?7?v", "BenchmarkX 1 5??",
+	// '#' is a decimal digit, case-split: measurements and iteration counts at the edge of int64
+	"BenchmarkX 1 922337203685477580# u", "BenchmarkX 1 92233720368547758## u 3 v", "BenchmarkX 922337203685477580# 5 u", "BenchmarkX 1 1844674407370955161# u",
 }
 
 // H02Bench: benchmark lines with symbolic holes; record kind and content
@@ -252,6 +255,10 @@ func H02Bench() {
 		if line[k] == '?' {
 			line[k] = vndByte("hole")
 			vndAssume(vndAnd(line[k] != '\n', line[k] < 0x80))
+		} else if line[k] == '#' {
+			line[k] = vndByte("digit")
+			vndAssume(vndAnd(line[k] >= '0', line[k] <= '9'))
+			line[k] = vndConcretizeByte(line[k])
 		}
 	}
 	text := append(append([]byte{}, line...), '\n')
@@ -337,6 +344,13 @@ func H02Bench() {
 				u = res.Values[k].Unit
 			}
 			vndAssert(u == string(fields[2+2*k]), "result-unit-as-written")
+			// the measurement as written is the number the field spells
+			wv, _ := strconv.ParseFloat(string(fields[1+2*k]), 64)
+			gv := res.Values[k].Value
+			if res.Values[k].OrigUnit != "" {
+				gv = res.Values[k].OrigValue
+			}
+			vndAssert(vndOr(math.Float64bits(gv) == math.Float64bits(wv), vndAnd(gv != gv, wv != wv)), "result-measurement-as-written")
 		}
 	}
 }
